@@ -54,6 +54,10 @@ class Unit:
     def configs_for(self, tier):
         return list(self.configs)
 
+    def local_contracts_for(self, cfg):
+        """callee contracts used at call sites of this unit only (target -> Contract instance)"""
+        return {}
+
     def cfg_label(self, cfg):
         return "" if cfg is None else str(cfg)
 
@@ -276,7 +280,7 @@ def _explore(unit, cfg, fn, out, stack, budget, timeout_ms, known, notes, truste
                 unit.run(c, cfg)
                 completed = True
             else:
-                interp = Interp(contracts=REGISTRY, loop_specs=list(unit.loop_specs_for(cfg)),
+                interp = Interp(contracts={**REGISTRY, **unit.local_contracts_for(cfg)}, loop_specs=list(unit.loop_specs_for(cfg)),
                                 verifying=qualname(fn), inline=unit.inline)
                 c.interp = interp
                 args, kwargs = unit.setup(c, cfg)
